@@ -10,6 +10,10 @@
 //!                   the operand of the selectors is the RESULT of a library operation computed here by the real library
 //!                   (`apply_op`; replay recomputes it); `<n>` is the variable count the result must have; the result is
 //!                   printed with `fmt_bdd`, `oppanic` if the operation itself panicked (then nothing else is observed)
+//! `C11.wide <bdd> => <the twelve observations of C11.sel>` / `C11.widerand <bdd> <flips> => random_valuation random_clause`
+//!                   very wide diagrams (1 000 … 65 533 variables); valuations, clauses and flips are run-length encoded
+//!                   (`1x3,0x32766`, `-x5,0x1`); `necessary_clause` is quadratic in the Rust code (nodes x variables): it is
+//!                   run when (nodes x variables) <= NEC_BUDGET and printed as `skipped` otherwise
 //! An `Option` result is printed as the value or `none`, a panic as `panic`.
 #[path = "../common.rs"]
 mod common;
@@ -141,6 +145,19 @@ pub fn run(key: &str, a: &[String], out: &mut Out) {
                 }
             }
         }
+        "C11.wide" => {
+            let b = Bdd::from_string(&a[0]);
+            let n = b.num_vars() as usize;
+            out.case(key, a, &observe_wide(&b, n));
+        }
+        "C11.widerand" => {
+            let b = Bdd::from_string(&a[0]);
+            let n = b.num_vars() as usize;
+            let flips = unrle_bools(&a[1]);
+            let rv = catch(|| { let mut r = CoinRng::new(flips.clone()); b.random_valuation(&mut r) });
+            let rc = catch(|| { let mut r = CoinRng::new(flips.clone()); b.random_clause(&mut r) });
+            out.case(key, a, &[show_val_rle(rv), show_clause_rle(rc, n)]);
+        }
         _ => panic!("unknown key {}", key),
     }
 }
@@ -169,6 +186,263 @@ fn flips_for(rng: &mut Rng64, n: usize) -> String {
         _ => (0..len).map(|_| rng.bool()).collect(),
     };
     fmt_bools(&v)
+}
+
+// ------------------------------------------------------------------------------------------------
+// very wide diagrams
+
+/// `necessary_clause` scans the node list once per non-free variable: skip it above this many (nodes x variables)
+const NEC_BUDGET: u64 = 60_000_000;
+
+fn rle<T: PartialEq + Copy>(xs: &[T], sym: impl Fn(T) -> char) -> String {
+    if xs.is_empty() { return s("~"); }
+    let mut out = String::new();
+    let mut i = 0;
+    while i < xs.len() {
+        let mut j = i;
+        while j < xs.len() && xs[j] == xs[i] { j += 1; }
+        if !out.is_empty() { out.push(','); }
+        out.push(sym(xs[i])); out.push('x'); out.push_str(&(j - i).to_string());
+        i = j;
+    }
+    out
+}
+fn rle_bools(v: &[bool]) -> String { rle(v, |b| if b { '1' } else { '0' }) }
+fn unrle_bools(x: &str) -> Vec<bool> {
+    let mut v = vec![];
+    if x == "~" { return v; }
+    for run in x.split(',') {
+        let b = run.starts_with('1');
+        let k: usize = run[2..].parse().unwrap();
+        v.extend(std::iter::repeat(b).take(k));
+    }
+    v
+}
+fn show_val_rle(r: Option<Option<BddValuation>>) -> String {
+    match r { None => s("panic"), Some(None) => s("none"), Some(Some(v)) => rle_bools(&v.vector()) }
+}
+fn show_clause_rle(r: Option<Option<BddPartialValuation>>, n: usize) -> String {
+    match r {
+        None => s("panic"), Some(None) => s("none"),
+        Some(Some(c)) => {
+            let mut cells: Vec<Option<bool>> = vec![None; n];
+            let mut extra = String::new();
+            for (v, b) in c.to_values() {
+                if v.to_index() < n { cells[v.to_index()] = Some(b); } else { extra.push_str(&format!(";{}={}", v.to_index(), if b { 1 } else { 0 })); }
+            }
+            rle(&cells, |c| match c { Some(true) => '1', Some(false) => '0', None => '-' }) + &extra
+        }
+    }
+}
+fn observe_wide(b: &Bdd, n: usize) -> Vec<String> {
+    let nec = if (b.size() as u64).saturating_sub(2) * (n as u64) <= NEC_BUDGET { show_clause_rle(catch(|| b.necessary_clause()), n) } else { s("skipped") };
+    vec![
+        show_val_rle(catch(|| b.sat_witness())),
+        show_val_rle(catch(|| b.first_valuation())),
+        show_val_rle(catch(|| b.last_valuation())),
+        show_val_rle(catch(|| b.most_positive_valuation())),
+        show_val_rle(catch(|| b.most_negative_valuation())),
+        show_clause_rle(catch(|| b.first_clause()), n),
+        show_clause_rle(catch(|| b.last_clause()), n),
+        show_clause_rle(catch(|| b.most_fixed_clause()), n),
+        show_clause_rle(catch(|| b.most_free_clause()), n),
+        nec,
+        show_bool(catch(|| b.is_clause())),
+        show_bool(catch(|| b.is_valuation())),
+    ]
+}
+
+/// Oracle builder for wide diagrams (independent of the library): a unique table with the two reduction rules,
+/// chains of forced literals built bottom-up, a small multi-leaf decision structure on top, and the final
+/// renumbering into the canonical layout (DFS post-order, high child first, reachable nodes only).
+struct Mk { n: usize, nodes: Vec<(usize, usize, usize)>, uniq: std::collections::HashMap<(usize, usize, usize), usize> }
+impl Mk {
+    fn new(n: usize) -> Mk { Mk { n, nodes: vec![(n, 0, 0), (n, 1, 1)], uniq: std::collections::HashMap::new() } }
+    fn mk(&mut self, v: usize, lo: usize, hi: usize) -> usize {
+        if lo == hi { return lo; }
+        if let Some(i) = self.uniq.get(&(v, lo, hi)) { return *i; }
+        self.nodes.push((v, lo, hi));
+        self.uniq.insert((v, lo, hi), self.nodes.len() - 1);
+        self.nodes.len() - 1
+    }
+    /// conjunction of the literals `lits` (increasing levels, all above the top level of `tail`) with `tail`
+    fn run(&mut self, lits: &[(usize, bool)], tail: usize) -> usize {
+        let mut p = tail;
+        for (v, pol) in lits.iter().rev() { p = if *pol { self.mk(*v, 0, p) } else { self.mk(*v, p, 0) }; }
+        p
+    }
+    /// decision structure over `levels` (increasing, all below the top levels of the leaves); `leaves[i]` is the
+    /// pointer reached under assignment number i (variable 0 most significant)
+    fn top(&mut self, levels: &[usize], leaves: &[usize]) -> usize {
+        if levels.is_empty() { return leaves[0]; }
+        let half = leaves.len() / 2;
+        let hi = self.top(&levels[1..], &leaves[half..]);
+        let lo = self.top(&levels[1..], &leaves[..half]);
+        self.mk(levels[0], lo, hi)
+    }
+    fn canon_text(&self, root: usize) -> String {
+        let n = self.n;
+        if root == 0 { return fmt_triples(&[(n, 0, 0)]); }
+        let mut id: Vec<usize> = vec![usize::MAX; self.nodes.len()];
+        id[0] = 0; id[1] = 1;
+        let mut res: Vec<(usize, usize, usize)> = vec![(n, 0, 0), (n, 1, 1)];
+        let mut stack: Vec<(usize, u8)> = vec![(root, 0)];
+        while let Some((p, st)) = stack.pop() {
+            if id[p] != usize::MAX { continue; }
+            let (v, lo, hi) = self.nodes[p];
+            match st {
+                0 => { stack.push((p, 1)); if id[hi] == usize::MAX { stack.push((hi, 0)); } }
+                1 => { stack.push((p, 2)); if id[lo] == usize::MAX { stack.push((lo, 0)); } }
+                _ => { res.push((v, id[lo], id[hi])); id[p] = res.len() - 1; }
+            }
+        }
+        fmt_triples(&res)
+    }
+}
+
+const WIDE_NS: [usize; 6] = [1000, 32767, 32768, 32769, 40000, 65533];
+
+/// literals on the levels `from..from+len` with a polarity pattern
+fn lits_run(rng: &mut Rng64, from: usize, len: usize) -> Vec<(usize, bool)> {
+    let kind = rng.below(5);
+    let block = 1 + rng.below(5000) as usize;
+    (0..len).map(|i| (from + i, match kind { 0 => true, 1 => false, 2 => (i / block) % 2 == 0, 3 => (i / block) % 2 == 1, _ => i + 1 != len })).collect()
+}
+fn pick_len(rng: &mut Rng64, max: usize) -> usize {
+    let c = [32767usize, 32768, 32769, 32770, max, max.saturating_sub(1), 1 + rng.below(max.max(1) as u64) as usize, 1 + rng.below(40) as usize];
+    (*rng.pick(&c)).min(max).max(1)
+}
+
+/// one wide diagram of the given shape over `n` variables
+fn wide_shape(rng: &mut Rng64, n: usize, shape: u64) -> String {
+    let mut m = Mk::new(n);
+    let root = match shape {
+        0 => {
+            // a cube with a few literals (often on the first / last level)
+            let mut lv: Vec<usize> = (0..1 + rng.below(6)).map(|_| rng.below(n as u64) as usize).collect();
+            if rng.bool() { lv.push(0); }
+            if rng.bool() { lv.push(n - 1); }
+            lv.sort(); lv.dedup();
+            let lits: Vec<(usize, bool)> = lv.iter().map(|v| (*v, rng.bool())).collect();
+            m.run(&lits, 1)
+        }
+        1 => {
+            // a long cube: one contiguous run, sometimes all variables (a single valuation)
+            let len = pick_len(rng, n);
+            let from = if rng.bool() { 0 } else { rng.below((n - len) as u64 + 1) as usize };
+            let lits = lits_run(rng, from, len);
+            m.run(&lits, 1)
+        }
+        2 => {
+            // literal OR long cube (and the mirrored / negated variants): x_a ? 1 : run, x_a ? run : 1, with a short cube instead of 1
+            let a = if rng.chance(2, 3) { 0 } else { rng.below(8.min(n as u64 - 1)) as usize };
+            let len = pick_len(rng, n - a - 1);
+            let from = if rng.chance(2, 3) { a + 1 } else { a + 1 + rng.below((n - a - 1 - len) as u64 + 1) as usize };
+            let lits = lits_run(rng, from, len);
+            let long = m.run(&lits, 1);
+            let other = if rng.chance(2, 3) { 1 } else { let q = from + rng.below(len as u64) as usize; m.run(&[(q, rng.bool())], 1) };
+            if rng.bool() { m.mk(a, long, other) } else { m.mk(a, other, long) }
+        }
+        3 => {
+            // 2-3 term DNF of short cubes over <= 8 support levels
+            let k = 2 + rng.below(7) as usize;
+            let mut levels: Vec<usize> = vec![];
+            while levels.len() < k { let l = rng.below(n as u64) as usize; if !levels.contains(&l) { levels.push(l); } }
+            levels.sort();
+            let terms: Vec<(usize, usize)> = (0..2 + rng.below(2)).map(|_| { let mask = rng.next() as usize & ((1 << k) - 1); (mask, rng.next() as usize & mask) }).collect();
+            let leaves: Vec<usize> = (0..1usize << k).map(|i| if terms.iter().any(|(mk_, v)| i & mk_ == *v) { 1 } else { 0 }).collect();
+            m.top(&levels, &leaves)
+        }
+        4 => {
+            // x_a ? runA : runB with long runs of different length and polarity (branch scores far apart)
+            let a = rng.below(4.min(n as u64 - 1)) as usize;
+            let la = pick_len(rng, n - a - 1);
+            let lb = pick_len(rng, n - a - 1);
+            let fa = a + 1 + rng.below((n - a - 1 - la) as u64 + 1) as usize;
+            let fb = a + 1 + rng.below((n - a - 1 - lb) as u64 + 1) as usize;
+            let (ra, rb) = (lits_run(rng, fa, la), lits_run(rng, fb, lb));
+            let (pa, pb) = (m.run(&ra, 1), m.run(&rb, 1));
+            m.mk(a, pb, pa)
+        }
+        5 => {
+            // forced prefix run, a small decision structure, up to two suffix runs as leaves
+            let k = 1 + rng.below(5) as usize;
+            let pre = if rng.bool() { 0 } else { pick_len(rng, (n - k) / 3) };
+            let mid_from = pre + rng.below(20.min((n - pre - k) as u64 / 2 + 1)) as usize;
+            let levels: Vec<usize> = (0..k).map(|i| mid_from + 2 * i).collect();
+            let below = levels[k - 1] + 1;
+            let room = n - below;
+            let mut leafs: Vec<usize> = vec![0, 1];
+            for _ in 0..2 {
+                if room >= 1 {
+                    let len = pick_len(rng, room);
+                    let from = below + rng.below((room - len) as u64 + 1) as usize;
+                    let lits = lits_run(rng, from, len);
+                    leafs.push(m.run(&lits, 1));
+                }
+            }
+            let leaves: Vec<usize> = (0..1usize << k).map(|_| *rng.pick(&leafs)).collect();
+            let mid = m.top(&levels, &leaves);
+            let plits = lits_run(rng, 0, pre);
+            m.run(&plits, mid)
+        }
+        _ => {
+            // a random function of <= 10 support variables spread over the levels
+            let k = 1 + rng.below(10) as usize;
+            let mut levels: Vec<usize> = vec![];
+            while levels.len() < k { let l = rng.below(n as u64) as usize; if !levels.contains(&l) { levels.push(l); } }
+            levels.sort();
+            let tt = random_tt(rng, k);
+            let leaves: Vec<usize> = tt.iter().map(|b| if *b { 1 } else { 0 }).collect();
+            m.top(&levels, &leaves)
+        }
+    };
+    m.canon_text(root)
+}
+
+/// coin flips for a wide diagram: runs of random lengths (short and long), run-length encoded
+fn wide_flips(rng: &mut Rng64, n: usize) -> String {
+    let total = match rng.below(6) { 0 => 0, 1 => rng.below(n as u64) as usize, _ => n + rng.below(3) as usize };
+    let mut v: Vec<bool> = Vec::with_capacity(total);
+    let mut b = rng.bool();
+    while v.len() < total {
+        let k = match rng.below(4) { 0 => 1, 1 => 1 + rng.below(8) as usize, 2 => 1 + rng.below(1000) as usize, _ => 1 + rng.below(40000) as usize };
+        for _ in 0..k.min(total - v.len()) { v.push(b); }
+        b = !b;
+    }
+    rle_bools(&v)
+}
+
+/// the inputs of the wide stream (generated up front so that they can be interleaved with the cheap cases:
+/// the runner cuts the case file into contiguous shards)
+fn wide_inputs(thorough: bool, rng: &mut Rng64) -> Vec<(String, String)> {
+    let mut v = vec![];
+    // the boundary shape: x_0 | (!x_1 & ... & !x_L) and its dual, L around 2^15, over every width that can hold it
+    for n in [32769usize, 40000, 65533] {
+        for l in [32767usize, 32768, 32769] {
+            if l + 1 > n { continue; }
+            for neg in [true, false] {
+                let mut m = Mk::new(n);
+                let lits: Vec<(usize, bool)> = (1..=l).map(|i| (i, !neg)).collect();
+                let long = m.run(&lits, 1);
+                let root = if neg { m.mk(0, long, 1) } else { m.mk(0, 1, long) };
+                if thorough || n != 40000 { v.push((m.canon_text(root), wide_flips(rng, n))); }
+            }
+        }
+    }
+    let per = if thorough { 40 } else { 3 };
+    for n in WIDE_NS { for shape in 0..7u64 { for _ in 0..per {
+        v.push((wide_shape(rng, n, shape), wide_flips(rng, n)));
+    } } }
+    v
+}
+fn emit_wide(q: &mut Vec<(String, String)>, k: usize, out: &mut Out) {
+    for _ in 0..k {
+        if let Some((b, f)) = q.pop() {
+            run("C11.wide", &[b.clone()], out);
+            run("C11.widerand", &[b, f], out);
+        }
+    }
 }
 
 /// number of variables of a text-form diagram
@@ -348,6 +622,11 @@ pub fn gen(tier: Tier, rng: &mut Rng64, out: &mut Out) {
         for p in pattern { assert_eq!(r.gen_bool(0.5), p, "CoinRng does not reproduce gen_bool(0.5)"); }
         assert!(!r.gen_bool(0.5), "an exhausted CoinRng must yield false");
     }
+    // --- very wide diagrams: generated now, emitted in small groups between the cheap cases below
+    let mut wq = wide_inputs(thorough, rng);
+    let n4: u64 = if thorough { 65536 } else { 3000 };
+    let (r58, rgap, rnc): (u64, u64, u64) = if thorough { (150000, 150000, 20000) } else { (2500, 3000, 1500) };
+    let wstep = ((n4 + r58 + rgap + rnc) / (wq.len() as u64 + 1)).max(1);
     // --- constants over 0..3 variables and a few large variable counts
     for n in [0usize, 1, 2, 3, 17, 60] {
         for c in [false, true] {
@@ -369,8 +648,8 @@ pub fn gen(tier: Tier, rng: &mut Rng64, out: &mut Out) {
     // --- operands that are results of library operations
     gen_ops(thorough, rng, out);
     // --- n = 4: all 65 536 functions (thorough) or a sample (quick)
-    let n4: u64 = if thorough { 65536 } else { 3000 };
     for i in 0..n4 {
+        if i % wstep == 0 { emit_wide(&mut wq, 1, out); }
         let t = if thorough { i } else { rng.below(65536) };
         let b = fmt_bdd(&bdd_of_tt(4, &tt_from_index(4, t)));
         run("C11.sel", &[b.clone()], out);
@@ -378,8 +657,8 @@ pub fn gen(tier: Tier, rng: &mut Rng64, out: &mut Out) {
         for _ in 0..k { run("C11.rand", &[b.clone(), flips_for(rng, 4)], out); }
     }
     // --- random functions over 5..8 variables (density classes, structured families)
-    let rounds = if thorough { 150000 } else { 2500 };
-    for _ in 0..rounds {
+    for i in 0..r58 {
+        if i % wstep == 0 { emit_wide(&mut wq, 1, out); }
         let n = 5 + rng.below(4) as usize;
         let b = fmt_bdd(&random_bdd(rng, n));
         run("C11.sel", &[b.clone()], out);
@@ -407,8 +686,8 @@ pub fn gen(tier: Tier, rng: &mut Rng64, out: &mut Out) {
         run("C11.rand", &[b.clone(), flips_for(rng, n)], out);
     }
     // --- few-node diagrams over 10..60 variables with level gaps
-    let rounds = if thorough { 150000 } else { 3000 };
-    for i in 0..rounds {
+    for i in 0..rgap {
+        if i % wstep == 0 { emit_wide(&mut wq, 1, out); }
         // the first third stays at n <= 12 so that the brute-force predicate applies
         let n = if i % 3 == 0 { 10 + rng.below(3) as usize } else { 10 + rng.below(51) as usize };
         let k = 1 + rng.below(6) as usize;
@@ -417,14 +696,16 @@ pub fn gen(tier: Tier, rng: &mut Rng64, out: &mut Out) {
         run("C11.rand", &[b.clone(), flips_for(rng, n)], out);
     }
     // --- valid but non-canonical diagrams: correspondence of the model only (panics included)
-    let rounds = if thorough { 20000 } else { 1500 };
-    for _ in 0..rounds {
+    for i in 0..rnc {
+        if i % wstep == 0 { emit_wide(&mut wq, 1, out); }
         let n = 2 + rng.below(6) as usize;
         let b = random_bdd(rng, n);
         let v = fmt_bdd(&noncanon_variant(rng, &b));
         run("C11.nc", &[v.clone()], out);
         run("C11.ncrand", &[v.clone(), flips_for(rng, n)], out);
     }
+    let rest = wq.len();
+    emit_wide(&mut wq, rest, out);
 }
 
 fn main() { harness_main(gen, run) }
